@@ -6,7 +6,7 @@ use crate::gens::*;
 use crate::props::c07::boundary;
 use ff::Field;
 use num_bigint::BigUint;
-use num_traits::Zero;
+use num_traits::{One, Zero};
 use proptest::collection::vec;
 use proptest::prelude::*;
 use rand_chacha::rand_core::SeedableRng;
@@ -520,7 +520,23 @@ fn pts_oracle(c: &PtsCase, st: &mut Stats) -> Result<(), String> {
   let ys: Vec<Vec<BigUint>> = xs
     .iter()
     .enumerate()
-    .map(|(i, _)| (0..k).map(|j| big_from_le(&expand(c.seed ^ ((i as u64) << 8) ^ j as u64, 24)) % p()).collect())
+    .map(|(i, _)| {
+      // special values among the y coordinates too: single values 0 / 1 / p-1, and whole rows of
+      // zeros (a point on a common root of all the polynomials)
+      let row_zero = expand(c.seed ^ ((i as u64) << 8) ^ 0xFFFF, 1)[0] < 40;
+      (0..k)
+        .map(|j| {
+          let r = expand(c.seed ^ ((i as u64) << 8) ^ j as u64, 25);
+          match r[24] {
+            _ if row_zero => BigUint::zero(),
+            0..=31 => BigUint::zero(),
+            32..=47 => BigUint::one(),
+            48..=63 => p() - 1u32,
+            _ => big_from_le(&r[..24]) % p(),
+          }
+        })
+        .collect()
+    })
     .collect();
   let shares: Vec<Share> = xs
     .iter()
@@ -547,6 +563,9 @@ fn pts_oracle(c: &PtsCase, st: &mut Stats) -> Result<(), String> {
       first.iter().map(|i| xs[*i].to_string()).collect::<Vec<_>>(),
       sel
     ));
+  }
+  if k > 0 && first.iter().any(|i| ys[*i].iter().all(|y| y.is_zero())) && !first.iter().all(|i| ys[*i].iter().all(|y| y.is_zero())) {
+    st.class("point-with-all-y=0-among-first-t");
   }
   let has_zero = first.iter().any(|i| xs[*i].is_zero());
   if has_zero {
